@@ -15,10 +15,11 @@ Fixpoint no_start (pat a rest : string) : bool :=
   end.
 
 (** code text free of scanner markers: no double quote, no "//", no "/*", not an #include line
-    (the scanner looks for "#include" after the leading white space) *)
+    (the scanner's test [is_include_line]: '#' after the leading white space, then "include" after
+    the white space that follows the '#') *)
 Definition no_markers (pre : string) : Prop :=
   contains """" pre = false /\ contains "//" pre = false /\ contains "/*" pre = false
-  /\ starts_with "#include" (trim_start pre) = false.
+  /\ is_include_line pre = false.
 
 (** a literal body in which a backslash always takes the next character with it, no quote stands
     unescaped and no backslash is left alone at the end: the bodies of C.  Weaker than
